@@ -340,40 +340,47 @@ fn schedules(ctx: &Ctx, acc: &mut Acc, l: L, tier: Tier, instrumented: bool) {
         Arc::new(move || calls.iter().map(|&c| call_on(&sh.0, l, c, true)).collect())
     };
     // the instrumented build has many more scheduling points per call: fewer programs, same bounds
-    let ncalls = if instrumented { tier.pick(3usize, 5) } else { tier.pick(5usize, SCHED_CALLS) };
-    let bound = tier.pick(1usize, 2);
-    // call indices used when instrumented: validator on a compound, scanner on P1, text path on P2
+    // (program, preemption bound): all ordered pairs at bound 1; a core of pairs at bound 2 (thorough);
+    // two calls per thread and three threads at bound 1
     let pick = |i: usize| -> usize { if instrumented { [4usize, 0, 5, 3, 2][i] } else { i } };
-    let mut programs: Vec<Vec<Vec<usize>>> = vec![];
+    let mut programs: Vec<(Vec<Vec<usize>>, usize)> = vec![];
+    let ncalls = if instrumented { tier.pick(3usize, 5) } else { tier.pick(5usize, SCHED_CALLS) };
     for a in 0..ncalls {
         for b in 0..ncalls {
-            programs.push(vec![vec![pick(a)], vec![pick(b)]]);
+            programs.push((vec![vec![pick(a)], vec![pick(b)]], 1));
         }
     }
-    if instrumented {
-        // nothing else: keep the instrumented exploration small
-    } else if tier == Tier::Thorough {
-        // two calls per thread, and three threads
-        for a in [0usize, 2, 3, 5] {
-            for b in [1usize, 3, 6] {
-                programs.push(vec![vec![a, b], vec![b, a]]);
+    if tier == Tier::Thorough {
+        let core: &[usize] = if instrumented { &[4, 0, 5] } else { &[0, 2, 3, 4] };
+        for &a in core {
+            for &b in core {
+                programs.push((vec![vec![a], vec![b]], 2));
             }
         }
-        for a in [0usize, 3] {
-            for b in [1usize, 5] {
-                programs.push(vec![vec![a], vec![b], vec![6]]);
-            }
-        }
-    } else {
-        programs.push(vec![vec![0], vec![3], vec![5]]);
     }
-    for prog in programs {
+    if !instrumented {
+        if tier == Tier::Thorough {
+            for a in [0usize, 2, 3, 5] {
+                for b in [1usize, 3, 6] {
+                    programs.push((vec![vec![a, b], vec![b, a]], 1));
+                }
+            }
+            for a in [0usize, 3] {
+                for b in [1usize, 5] {
+                    programs.push((vec![vec![a], vec![b], vec![6]], 1));
+                }
+            }
+            programs.push((vec![vec![0], vec![3], vec![4]], 2));
+        } else {
+            programs.push((vec![vec![0], vec![3], vec![5]], 1));
+        }
+    }
+    for (prog, bound) in programs {
         let bodies: Vec<Body<Vec<String>>> = prog.iter().map(|c| mk(c.clone())).collect();
         let name = prog.iter().enumerate().map(|(t, cs)| format!("T{t}: {}", cs.iter().map(|&c| call_name(c)).collect::<Vec<_>>().join(", "))).collect::<Vec<_>>().join(" || ");
         let mut outcomes: std::collections::BTreeSet<String> = Default::default();
         let mut bad: Vec<(Vec<usize>, String)> = vec![];
-        let three = prog.len() > 2;
-        let ex = sched::explore(&bodies, if three { bound.min(1) + (tier == Tier::Thorough) as usize } else { bound }, &mut |choices, results: &[Vec<String>]| {
+        let ex = sched::explore(&bodies, bound, &mut |choices, results: &[Vec<String>]| {
             outcomes.insert(format!("{results:?}"));
             for (t, cs) in prog.iter().enumerate() {
                 for (k, &c) in cs.iter().enumerate() {
@@ -542,8 +549,19 @@ pub fn shim_child(tier: Tier) -> i32 {
     text2num::verif::set_yield_hook(sched::point);
     #[cfg(feature = "shim")]
     text2num::verif_sync::set_hooks(sched::point, sched::blocked);
-    for l in langs::ALL {
-        schedules(&ctx, &mut acc, l, tier, true);
+    {
+        use rayon::prelude::*;
+        let parts: Vec<Acc> = langs::ALL
+            .par_iter()
+            .map(|l| {
+                let mut a = Acc::new();
+                schedules(&ctx, &mut a, *l, tier, true);
+                a
+            })
+            .collect();
+        for a in parts {
+            acc.merge(a);
+        }
     }
     println!("{}", json!({"stat": [acc.states, acc.transitions, acc.traces], "counters": acc.extra, "instrumented": cfg!(feature = "shim")}));
     for v in &acc.viols {
@@ -665,9 +683,21 @@ pub fn run(tier: Tier) -> i32 {
         histories(&ctx, &mut acc, l, tier.pick(2, 3));
     }
     cross_language_histories(&ctx, &mut acc, tier.pick(2, 3));
-    // 2. schedules (sequential over languages: the scheduler owns the threads)
-    for l in langs::ALL {
-        schedules(&ctx, &mut acc, l, tier, false);
+    // 2. schedules: one exploration per language, run side by side (each exploration runs exactly one
+    // of its threads at a time, so seven of them fit on the machine without disturbing each other)
+    {
+        use rayon::prelude::*;
+        let parts: Vec<Acc> = langs::ALL
+            .par_iter()
+            .map(|l| {
+                let mut a = Acc::new();
+                schedules(&ctx, &mut a, *l, tier, false);
+                a
+            })
+            .collect();
+        for a in parts {
+            acc.merge(a);
+        }
     }
     // 2b. the same kind of exploration on a build whose own synchronisation operations are scheduling points
     let shim_note = shim_stage(&ctx, &mut acc, tier);
@@ -722,7 +752,7 @@ pub fn run(tier: Tier) -> i32 {
     let cov = json!({
         "exhaustive": true,
         "rule": "(1) every history of <= k calls from a 10-call alphabet (whole calls and abandoned lazy scans) on one shared interpreter and on two interleaved interpreters, plus every merge order of the next() calls of two live lazy searches; (2) for 2-thread (and some 3-thread) programs over the call alphabet sharing one interpreter, every interleaving of scheduling points (call boundaries + every library callback into harness code: stream next(), first Token/BasicAnnotate method call per token, set_nan, Replace::replace + through the cfg-guarded yield hook the entry of every mutating DigitString operation inside the library) with at most `preemption_bound` preemptions, explored by re-execution under a controlled scheduler (one thread runs at a time); every call's result compared with its sequential fresh-interpreter result; (3) compile probe for Send + Sync; (4) child process with piped stdout/stderr",
-        "bounds": {"history_depth": tier.pick(2, 3), "preemption_bound_two_threads": tier.pick(1, 2), "threads": "2 (all ordered call pairs), 3 (selected)", "calls": (0..NCALLS).map(call_name).collect::<Vec<_>>()},
+        "bounds": {"history_depth": tier.pick(2, 3), "preemption_bounds": tier.pick("1 for every program", "1 for every program; 2 for the 16 pairs over {find_numbers(P1), replace_numbers_in_stream(P1), basic_annotate+find(P2), text2digits(compound)} and one 3-thread program"), "threads": "2 (all ordered call pairs), 3 (selected)", "calls": (0..NCALLS).map(call_name).collect::<Vec<_>>()},
         "instrumented_synchronisation_stage": shim_note,
         "note": "states = histories + merge orders + schedules executed; one distinct outcome per program is expected on code without shared mutable state; detection power is demonstrated by seeded mutants (DESIGN.md)",
     });
